@@ -293,7 +293,7 @@ CONTRACTS = {
                ' len(self.model.abs_lec_diff) == self.model.num_lecturers and len(self.model.lec_overload) == self.model.num_lecturers and len(self.model.lec_underload) == self.model.num_lecturers)'),
               "not used('obj_maxsize')", "not used('obj_minsize')", "not used('obj_mincost')", "not used('obj_minsqcost')", "not used('lec_max_abs_diff')", "not used('lec_sum_abs_diff')", "not used('obj_mincostlsb')"],
     modifies=['self.info_string', 'self.solver', 'self.model.info_string', 'self.model.lec_overload', 'self.model.lec_underload', 'self.solve_performed', 'ghost:feas', 'ghost:val', 'ghost:status', 'ghost:hist', 'ghost:solves', 'ghost:objective', 'ghost:feas_at_solve', 'ghost:used:obj_maxsize', 'ghost:used:obj_minsize', 'ghost:used:obj_mincost', 'ghost:used:obj_minsqcost', 'ghost:used:lec_max_abs_diff', 'ghost:used:lec_sum_abs_diff', 'ghost:used:obj_mincostlsb'],
-    returns=('str', 'status'),
+    returns=('statusstr',),
     defs=dict(ULC, needs_lb=([], 'exists(a, 0, len(self.optimisation_options), self.optimisation_options[a][0] == Optimisation_options.LOADMAXBAL or self.optimisation_options[a][0] == Optimisation_options.LOADSUMBAL or self.optimisation_options[a][0] == Optimisation_options.MINCOSTLSB)'),
               dev_ok=(['k'], 'nu(self.model.abs_lec_diff[k]) >= varsum(self.model.lecturer_lists[k]) - self.model.lec_targets[k] and nu(self.model.abs_lec_diff[k]) >= self.model.lec_targets[k] - varsum(self.model.lecturer_lists[k])')),
     ensures=[('solves-at-least-once', 'solves() > old(solves())'),
